@@ -7,7 +7,9 @@
        [ [equal_1; ...; equal_k] ; inputs_unmodified ; [names of the offending calls] ]
    where equal_i says that every concurrent execution of instance i and the second solo run returned the reference result (rendered values and
    error texts; as a multiset of the result list for the set-valued functions whose order follows map iteration), and inputs_unmodified is a
-   byte comparison of the rendered pool before and after each phase. There is no executable model of any Go function here.
+   byte comparison of the rendered pool before and after each phase. Each case runs in a fresh child process of the harness, and equal_i also requires
+   that call i returns the same result when other fresh processes make the calls alone: the batch in reverse order, and one call as the only call of
+   its process (the run-time check of the hypothesis of Conc.v's history theorems). There is no executable model of any Go function here.
 
    The model's answer is what the non-interference theorem (Conc.v) predicts for a library whose steps do not write shared memory: every flag true,
    inputs unmodified, no offending call — `predict k`. `predict_is_equal_flags` ties the prediction to the theorem: for every machine that satisfies
